@@ -72,8 +72,72 @@ def evalFrom (deps : Node → List String) (assign modifier : List (String × No
 def evaluate (C : ClassInfo) (S : List Spec) (o : Outcome) : Except EvalErr Ctx :=
   evalFrom (depsOf C S) o.assign o.modifier o.order []
 
-/-- `_defaultedProperties`: the properties whose value comes from a class default (candidates for `constProps`). -/
+/-- `_defaultedProperties`: the set filled by `for prop, default_spec in defaults.items(): if prop not in priorities:
+... properties[prop] = default_spec; _defaultedProperties.add(prop)` -- the properties that `properties` maps to a
+default specifier of the class (candidates for `constProps`), in the order of `properties`. -/
 def defaulted (o : Outcome) : List String :=
   (o.assign.filter (fun pa => match pa.2 with | .dflt _ => true | .user _ => false)).map (·.1)
+
+/-- `constProps = frozenset({prop for prop in _defaultedProperties if not needsSampling(properties[prop])})`;
+`sampled p` abstracts `needsSampling` of the final value of `p` (values are not modelled). -/
+def constProps (sampled : String → Bool) (o : Outcome) : List String :=
+  (defaulted o).filter (fun p => !sampled p)
+
+/-! ## `Constructible._override` (`override obj <specifiers>`)
+
+```python
+for spec in specifiers:
+    for prop in spec.priorities:
+        if prop in self._dynamicProperties: raise SpecifierError('cannot override dynamic property')
+        if prop not in self._propertiesSet: raise SpecifierError('object has no property ... to override')
+        oldVals[prop] = getattr(self, prop)
+defs = {prop: Specifier("OverrideDefault", {prop: -1}, {prop: getattr(self, prop)}) for prop in self.properties}
+newprops, _ = self._resolveSpecifiers(specifiers, defaults=defs)
+```
+The replacement defaults have no dependencies (their values are the current, concrete values); the node
+`.dflt p` of the resolution below therefore stands for "the value `p` had before the override". -/
+
+inductive OvErr where
+  /-- "cannot override dynamic property" -/
+  | dynamicProp
+  /-- "object has no property ... to override" -/
+  | noSuchProp
+deriving DecidableEq, Repr, Inhabited
+
+/-- `for prop in spec.priorities:` of the validation loop -/
+def overrideCheckProps (dyn props : List String) : List String → Option OvErr
+  | [] => none
+  | p :: ps =>
+    if p ∈ dyn then some .dynamicProp
+    else if p ∉ props then some .noSuchProp
+    else overrideCheckProps dyn props ps
+
+/-- `for spec in specifiers:` of the validation loop -/
+def overrideCheck (dyn props : List String) : List Spec → Option OvErr
+  | [] => none
+  | s :: rest =>
+    match overrideCheckProps dyn props (s.prios.map (·.1)) with
+    | some e => some e
+    | none => overrideCheck dyn props rest
+
+/-- `defaults=defs` with `finals = cls._finalProperties` (unchanged) -/
+def overrideClass (C : ClassInfo) (props : List String) : ClassInfo :=
+  ⟨props.map (fun p => (p, [])), C.finals⟩
+
+inductive OvOutcome where
+  | refused (e : OvErr)
+  | resolveErr (e : Err)
+  | ok (o : Outcome)
+deriving DecidableEq, Repr, Inhabited
+
+/-- `_override` up to the assignment of the new values; `dyn` = `self._dynamicProperties`,
+`props` = `self.properties`. -/
+def override (C : ClassInfo) (dyn props : List String) (S : List Spec) : OvOutcome :=
+  match overrideCheck dyn props S with
+  | some e => .refused e
+  | none =>
+    match resolve (overrideClass C props) S with
+    | .error e => .resolveErr e
+    | .ok o => .ok o
 
 end Scenic.Spec
